@@ -176,7 +176,8 @@ def perturb(draw, base, nmoves):
     return r
 
 
-SHAPES = ["complete", "incomplete", "sparse_block", "near_unanimous", "identical", "near_unanimous_incomplete"]
+SHAPES = ["complete", "incomplete", "sparse_block", "near_unanimous", "identical", "near_unanimous_incomplete",
+          "cyclic", "cyclic_incomplete"]
 
 
 @st.composite
@@ -220,6 +221,21 @@ def datasets(draw, max_n=7, max_m=5, min_n=1, shapes=None, kinds=None, allow_emp
         base = draw(weak_order_of(names))
         for _ in range(m):
             r = draw(perturb(base, draw(st.integers(0, 3))))
+            if shape.endswith("incomplete"):
+                drop = draw(st.lists(st.integers(0, 3), min_size=n, max_size=n))
+                gone = {e for e, q in zip(names, drop) if q == 0}
+                r = [[e for e in b if e not in gone] for b in r]
+                r = [b for b in r if b]
+            rankings.append(r)
+    elif shape in ("cyclic", "cyclic_incomplete"):
+        # rotations of a base order: Condorcet-like cycles, i.e. large strongly connected components
+        base = list(draw(st.permutations(names)))
+        m = max(m, 2)
+        for k in range(m):
+            sh = draw(st.integers(0, max(0, n - 1)))
+            rot = base[sh:] + base[:sh]
+            r = [[e] for e in rot]
+            r = draw(perturb(r, draw(st.integers(0, 2))))
             if shape.endswith("incomplete"):
                 drop = draw(st.lists(st.integers(0, 3), min_size=n, max_size=n))
                 gone = {e for e, q in zip(names, drop) if q == 0}
